@@ -235,7 +235,7 @@ void h_set_position(void) { ares_buf_t *b; size_t i; ares_buf_set_position(b, i)
 void h_begins_with(void) { ares_buf_t *b; const unsigned char *d; size_t n; ares_buf_begins_with(b, d, n); }
 
 /* ---- external callees of ares_buf.c that live in other files -------------------------------- */
-/* ASSUMED: ares_str_isprint(str,len) only reads str[0..len) and returns a boolean (its own loop is proved in the str cluster) */
+/* ASSUMED: ares_str_isprint(str,len) only reads str[0..len) and returns a boolean (discharged on the real ares_str.c by obligation str.isprint, proofs/buf/str.c) */
 ares_bool_t ares_str_isprint(const char *str, size_t len)
 {
   __CPROVER_assert(len == 0 || __CPROVER_r_ok(str, len), "ares_str_isprint: str readable for len bytes");
